@@ -2,11 +2,46 @@
 C12 — property theorems (only). Model: `HydroVerif/Model/C12.lean`; invariants (`VecOk`, `WorldOk`) and
 helper lemmas: `HydroVerif/Lemmas/C12.lean`.
 
-The state machine: a `World` = an array store + the list of live vectors; `step` applies one operation
-(set by attribute, set by key, whole-vector assignment, reset, clone, dictionary round-trip — failing ones
-included) to the `k`-th vector; `run` folds a whole history. Values are `XR α` (NaN, ±∞, finite `α`); the
-theorems hold for every linearly ordered `α` (the driver runs `α = Float`), the ones about the `EPS` margin
-for every linearly ordered additive group and every `0 ≤ eps`.
+The state machine: a `World` = an array store + the list of live vectors; `step` applies one operation to the
+`k`-th vector; `run` folds a whole history. `step` has a case for EVERY public entry point of `Vector`:
+  mutators   `setAttr` (`v.a = x`), `setKey` (`v["a"] = x`), `setAll` (`v.values = xs`), `reset`, `setBad`
+             (a value `float()` rejects, on any of the three paths)
+  copies     `clone`, `dictRT` (`from_dict(to_dict())`), `pyCopy` (`copy.deepcopy` / `pickle`: external protocol,
+             rejected on the pinned class, a deep copy when it works)
+  accessors  `getKey` (`v["a"]`), `getAttr` (`v.a`), `read` (`to_dict`, `to_series`, `str`, all property getters)
+  constructor `init` (all argument combinations given / omitted), and for transforms `tinit` / `tstep`.
+Values are `XR α` (NaN, ±∞, finite `α`); the theorems hold for every linearly ordered `α` (the driver runs
+`α = Float`), the ones about the `EPS` margin for every linearly ordered additive group and every `0 ≤ eps`.
+
+CLAUSE → THEOREMS (what stays outside)
+ 1 values always within bounds, any history ............ init_ok, step_ok, run_ok, worldOk_view_ok,
+                                                          values_within_bounds_always        (—)
+ 2 NaN stored only when explicitly allowed .............. same invariant (`valuesOk`), failing_assignments_rejected (—)
+ 3 a rejected assignment leaves the state untouched ..... rejected_identity (no hypothesis; the SAME world is
+                                                          returned), tstep_rejected_identity; which assignments are
+                                                          rejected: failing_assignments_rejected, accessors_identity
+                                                          (exception class / message text: not modelled)
+ 4 names, bounds, defaults never change ................. step_frozen, run_frozen, tstep_frozen
+                                                          (names are an immutable list in the model: no entry point
+                                                          writes `_names`; in-place edits by the CALLER through the
+                                                          aliased getters are outside the operation set)
+ 5 hit flag == latest assignment was clipped ............ setAttr_hit_exact, setAll_hit_exact, reset_exact,
+                                                          step_setAttr_exact, step_setAll_exact, step_reset_exact,
+                                                          whole_assignment_exact_always
+                                                          (flag is maintained only when check_hitbounds: theorems state
+                                                          hit = check_hitbounds ∧ clipped; inside the (0, EPS] margin
+                                                          the two code paths differ: excluded by the property's own
+                                                          conditioning = hypothesis `inRegion`)
+ 6 clones / dict round-trips = full state, independent .. clone_spec, dictRT_spec, toDict_faithful, copies_exact_always,
+                                                          pyCopy_spec, storage_disjoint_always, step_frame,
+                                                          spawn_keeps_all                      (—)
+ 7 read-only transform uses keep params/constants/bounds  readonly_preserves, readonly_preserves_always, tstep_ok,
+                                                          trun_ok, tinit_ok, add_ok, tstep_frozen
+                                                          (which class performs which inner write is a 4-way table
+                                                          `TKind` checked by the correspondence; numerical results of
+                                                          forward/backward/jacobian are C01/C02)
+ quantifier: 0..4 names (any length here), finite/infinite bounds (hypothesis: NaN-free bounds), all flags, all
+ histories (induction over `List Op`), every transform class (via `TKind`), all interleavings (`List TOp`).
 -/
 import HydroVerif.Lemmas.C12
 import Mathlib.Algebra.Order.Group.Int
@@ -77,6 +112,15 @@ theorem step_ok (eps : α) (w : World α) (op : Op α) (hw : WorldOk w) : WorldO
   | reset k => exact update_ok hw fun v s' v' hk e => reset_effect eps (hw.each k v hk) e
   | clone k => exact (spawn_ok hw fun v s' c hk e => clone_effect eps (hw.each k v hk) e).1
   | dictRT k => exact (spawn_ok hw fun v s' c hk e => dictRT_effect eps (hw.each k v hk) e).1
+  | getKey k nm => simpa [step] using hw
+  | getAttr k nm => simpa [step] using hw
+  | read k => simpa [step] using hw
+  | setBad k => simpa [step] using hw
+  | pyCopy k works =>
+    cases works
+    · simpa [step] using hw
+    · simp only [step, if_true]
+      exact (spawn_ok hw fun v s' c hk e => clone_effect eps (hw.each k v hk) e).1
 
 /-- INVARIANT, ALL HISTORIES: after any sequence of operations of any length -/
 theorem run_ok (eps : α) (ops : List (Op α)) : ∀ (w : World α), WorldOk w → WorldOk (run eps w ops) := by
@@ -130,6 +174,14 @@ theorem rejected_identity (eps : α) (w : World α) (op : Op α) (e : Err)
   | reset k => exact update_rejected w k _ e h
   | clone k => exact spawn_rejected w k _ e h
   | dictRT k => exact spawn_rejected w k _ e h
+  | getKey k nm => simp [step]
+  | getAttr k nm => simp [step]
+  | read k => simp [step]
+  | setBad k => simp [step]
+  | pyCopy k works =>
+    cases works
+    · simp [step]
+    · simp only [step, if_true] at h ⊢; exact spawn_rejected w k _ e h
 
 /-- the failing assignments of the property are rejected: NaN without permission (by attribute / by key),
 wrong length, unknown key -/
@@ -151,6 +203,25 @@ theorem failing_assignments_rejected (eps : α) (w : World α) (k : Nat) (v : Ve
   · intro xs hl hn ha
     simp [step, World.update, hk, setAll, reject?, hl, hn, ha]
 
+/-- ACCESSORS AND NON-NUMERIC VALUES: every pure accessor (`v[name]`, `v.name`, `to_dict`, `to_series`, `str`,
+property getters), an assignment of something `float()` rejects, and a failing copy protocol return the very same
+world; a read by key / attribute is accepted exactly for the vector's names and returns the stored element -/
+theorem accessors_identity (eps : α) (w : World α) (k : Nat) (nm : String) :
+    (step eps w (.getKey k nm)).1 = w ∧ (step eps w (.getAttr k nm)).1 = w ∧ (step eps w (.read k)).1 = w
+      ∧ (step eps w (.setBad k)).1 = w ∧ (step eps w (.pyCopy k false)).1 = w
+      ∧ (∀ v, w.vecs[k]? = some v →
+          ((step eps w (.getKey k nm)).2 = .ok ↔ (indexOf nm v.names).isSome)
+          ∧ ((step eps w (.getAttr k nm)).2 = .ok ↔ (indexOf nm v.names).isSome)
+          ∧ (step eps w (.read k)).2 = .ok
+          ∧ (step eps w (.setBad k)).2 = .rejected .notNumber
+          ∧ (∀ i, indexOf nm v.names = some i → readItem w k nm = (w.store.cells v.values)[i]?)) := by
+  refine ⟨by simp [step], by simp [step], by simp [step], by simp [step], by simp [step], ?_⟩
+  intro v hk
+  refine ⟨?_, ?_, by simp [step, World.peek, hk], by simp [step, World.peek, hk], ?_⟩
+  · cases h : indexOf nm v.names <;> simp [step, World.peek, hk, h]
+  · cases h : indexOf nm v.names <;> simp [step, World.peek, hk, h]
+  · intro i hi; simp [readItem, hk, hi]
+
 /-! ### names, bounds, defaults (and option flags) never change -/
 
 /-- FRAME: an operation addressed to vector `op.target` does not change anything any OTHER live vector
@@ -164,6 +235,15 @@ theorem step_frame (eps : α) (w : World α) (op : Op α) (hw : WorldOk w) (j : 
   | reset k => exact update_view_other hw (fun v s' v' hk e => reset_effect eps (hw.each k v hk) e) j hne
   | clone k => exact (spawn_ok hw fun v s' c hk e => clone_effect eps (hw.each k v hk) e).2 j hj
   | dictRT k => exact (spawn_ok hw fun v s' c hk e => dictRT_effect eps (hw.each k v hk) e).2 j hj
+  | getKey k nm => simp [step]
+  | getAttr k nm => simp [step]
+  | read k => simp [step]
+  | setBad k => simp [step]
+  | pyCopy k works =>
+    cases works
+    · simp [step]
+    · simp only [step, if_true]
+      exact (spawn_ok hw fun v s' c hk e => clone_effect eps (hw.each k v hk) e).2 j hj
 
 /-- clone / dictionary round-trip do not change the source either -/
 theorem spawn_keeps_all (eps : α) (w : World α) (k : Nat) (hw : WorldOk w) (j : Nat) (hj : j < w.vecs.length) :
@@ -191,6 +271,15 @@ theorem step_frozen (eps : α) (w : World α) (op : Op α) (hw : WorldOk w) (j :
       exact update_frozen_self hw fun v s' v' hk e => reset_effect eps (hw.each j v hk) e
     | clone k => simp only [World.frozen]; rw [(spawn_keeps_all eps w k hw j hj).1]
     | dictRT k => simp only [World.frozen]; rw [(spawn_keeps_all eps w k hw j hj).2]
+    | getKey k nm => simp [step]
+    | getAttr k nm => simp [step]
+    | read k => simp [step]
+    | setBad k => simp [step]
+    | pyCopy k works =>
+      cases works
+      · simp [step]
+      · simp only [World.frozen, step, if_true]
+        rw [(spawn_ok hw fun v s' c hk e => clone_effect eps (hw.each k v hk) e).2 j hj]
   · simp only [World.frozen]; rw [step_frame eps w op hw j hj hne]
 
 /-- FROZEN, ALL HISTORIES: for every vector alive at some point, names / bounds / defaults / flags are the same
@@ -246,7 +335,7 @@ outside: the new values are the assigned values clipped element-wise into a FRES
 iff hit checking is on and some stored value differs from the assigned one -/
 theorem setAll_hit_exact {eps : α} (heps : 0 ≤ eps) {s s' : Store α} {v v' : Vec} (h : VecOk s v)
     (xs : List (XR α)) (e : setAll eps s v xs = ((s', v'), .ok))
-    (hr : all3 (inRegion eps) xs (s.cells v.mins) (s.cells v.maxs) = true) :
+    (hr : all3 (XR.inRegion eps) xs (s.cells v.mins) (s.cells v.maxs) = true) :
     s'.cells v'.values = clipAll xs (s.cells v.mins) (s.cells v.maxs)
       ∧ s.next ≤ v'.values
       ∧ (v'.hit = true ↔ v.checkHit = true ∧ s'.cells v'.values ≠ xs) := by
@@ -282,7 +371,7 @@ theorem reset_exact {eps : α} (heps : 0 ≤ eps) {s : Store α} {v : Vec} (h : 
 /-- the same facts read on the state machine: `step` with a whole-vector assignment that is accepted -/
 theorem step_setAll_exact {eps : α} (heps : 0 ≤ eps) (w : World α) (hw : WorldOk w) (k : Nat) (xs : List (XR α))
     (vw : View α) (hv : w.view k = some vw) (hacc : (step eps w (.setAll k xs)).2 = .ok)
-    (hr : all3 (inRegion eps) xs vw.mins vw.maxs = true) :
+    (hr : all3 (XR.inRegion eps) xs vw.mins vw.maxs = true) :
     ∃ vw', (step eps w (.setAll k xs)).1.view k = some vw'
       ∧ vw'.values = clipAll xs vw.mins vw.maxs
       ∧ (vw'.hit = true ↔ vw.checkHit = true ∧ vw'.values ≠ xs) := by
@@ -357,6 +446,22 @@ theorem step_reset_exact {eps : α} (heps : 0 ≤ eps) (w : World α) (hw : Worl
     refine ⟨rfl, C12.view s' v', ?_, h1, h2⟩
     simp [World.view, hklt]
 
+/-- HIT FLAG, ALL HISTORIES: from any constructed vector, after ANY history, an accepted whole-vector assignment
+(values inside / on the bounds, NaN, or more than EPS outside) stores the element-wise clipped values and sets the
+flag iff hit checking is on and something was clipped -/
+theorem whole_assignment_exact_always {eps : α} (heps : 0 ≤ eps) (names : List String)
+    (defaults mins maxs : Option (List (XR α))) (cb ch an : Bool) (w0 : World α)
+    (e : init eps names defaults mins maxs cb ch an = .ok w0)
+    (hmins : ∀ m, mins = some m → m.any XR.isNaN = false) (hmaxs : ∀ m, maxs = some m → m.any XR.isNaN = false)
+    (ops : List (Op α)) (k : Nat) (xs : List (XR α)) (vw : View α)
+    (hv : (run eps w0 ops).view k = some vw) (hacc : (step eps (run eps w0 ops) (.setAll k xs)).2 = .ok)
+    (hr : all3 (XR.inRegion eps) xs vw.mins vw.maxs = true) :
+    ∃ vw', (step eps (run eps w0 ops) (.setAll k xs)).1.view k = some vw'
+      ∧ vw'.values = clipAll xs vw.mins vw.maxs
+      ∧ (vw'.hit = true ↔ vw.checkHit = true ∧ vw'.values ≠ xs) :=
+  step_setAll_exact heps _ (run_ok eps ops w0 (init_ok eps names defaults mins maxs cb ch an w0 e hmins hmaxs))
+    k xs vw hv hacc hr
+
 end hit
 
 /-! ### clone and dictionary round-trip reproduce the full observable state as independent copies -/
@@ -430,6 +535,28 @@ theorem toDict_faithful (s : Store α) (v : Vec) (h : VecOk s v) :
   obtain ⟨il, i1, i2, i3, i4, i5⟩ := items_spec v.n v.names (s.cells v.values) (s.cells v.mins) (s.cells v.maxs)
     (s.cells v.defaults) rfl h.len_values h.len_mins h.len_maxs h.len_defaults
   exact ⟨rfl, rfl, rfl, rfl, rfl, il, i1, i2, i3, i4, i5⟩
+
+/-- `copy.deepcopy` / `pickle` round-trip, when CPython's copy protocol succeeds, is `clone` (so `clone_spec` applies) -/
+theorem pyCopy_spec (eps : α) (w : World α) (k : Nat) : step eps w (.pyCopy k true) = step eps w (.clone k) := by
+  simp [step]
+
+/-- COPIES, ALL HISTORIES: from any constructed vector, after ANY history (any mix of mutators, accessors, failing
+operations, copies), cloning or round-tripping ANY live vector is accepted and yields a vector that shows exactly
+the source's state in freshly allocated arrays, every other vector unchanged -/
+theorem copies_exact_always {eps : α} (heps : 0 ≤ eps) (names : List String)
+    (defaults mins maxs : Option (List (XR α))) (cb ch an : Bool) (w0 : World α)
+    (e : init eps names defaults mins maxs cb ch an = .ok w0)
+    (hmins : ∀ m, mins = some m → m.any XR.isNaN = false) (hmaxs : ∀ m, maxs = some m → m.any XR.isNaN = false)
+    (ops : List (Op α)) (k : Nat) (v : Vec) (hk : (run eps w0 ops).vecs[k]? = some v) (viaDict : Bool) :
+    let w := run eps w0 ops
+    ∃ w' c, step eps w (if viaDict then .dictRT k else .clone k) = (w', .ok) ∧ w'.vecs = w.vecs ++ [c]
+      ∧ w'.view w.vecs.length = w.view k ∧ (∀ r ∈ c.refs, w.store.next ≤ r)
+      ∧ (∀ j, j < w.vecs.length → w'.view j = w.view j) ∧ WorldOk w' := by
+  intro w
+  have hw : WorldOk w := run_ok eps ops w0 (init_ok eps names defaults mins maxs cb ch an w0 e hmins hmaxs)
+  cases viaDict
+  · exact clone_spec heps w hw k v hk
+  · exact dictRT_spec heps w hw k v hk
 
 end copies
 
@@ -646,8 +773,8 @@ def exInit : Except Err (World Int) :=
   init (1 : Int) ["a", "b"] (some [.fin 5, .nan]) (some [.fin 0, .ninf]) (some [.fin 10, .pinf]) true true true
 
 def exOps : List (Op Int) :=
-  [.setKey 0 "a" (.fin 50), .clone 0, .setAttr 1 "b" .nan, .dictRT 1, .reset 0, .setAll 0 [.fin 3],
-   .setAll 1 [.fin (-4), .pinf]]
+  [.setKey 0 "a" (.fin 50), .clone 0, .setAttr 1 "b" .nan, .getKey 1 "zz", .dictRT 1, .reset 0, .read 0,
+   .setAll 0 [.fin 3], .setBad 2, .pyCopy 0 false, .getAttr 2 "a", .setAll 1 [.fin (-4), .pinf]]
 
 example : (match exInit with
     | .ok w => ((run 1 w exOps).vecs.length, (run 1 w exOps).view 0 |>.map (·.values),
@@ -660,7 +787,7 @@ example : (∀ m, (some [XR.fin (0 : Int), .ninf]) = some m → m.any XR.isNaN =
   intro m h; cases h; decide
 
 /-- the region hypothesis of `setAll_hit_exact` is met by an assignment that IS clipped -/
-example : all3 (inRegion (1 : Int)) [.fin 50, .nan] [.fin 0, .ninf] [.fin 10, .pinf] = true := by decide
+example : all3 (XR.inRegion (1 : Int)) [.fin 50, .nan] [.fin 0, .ninf] [.fin 10, .pinf] = true := by decide
 
 /-- a well-formed transform descriptor (params 0, constants 1, inner BoxCox2 2) -/
 example : (⟨.bc1lam, 0, 1, 2⟩ : Trans).wf := by constructor <;> decide
